@@ -137,10 +137,12 @@ def hasNul (s : List Char) : Bool := s.any (fun c => c.toNat == 0)
 
 def glibcFailure (s : List Char) : Exn := if hasNul s then .valueError else .osError
 
-/-- the platform as it is observed on CPython / glibc (tied by the driver op `raw_call`):
-    socket functions raise OSError (ValueError on an embedded NUL), `netaddr.fbsocket.inet_pton`
-    raises ValueError (fbsocket.py:113-142, 152-200: one `invalid_addr = ValueError(...)`),
-    `int()` raises ValueError -/
+/-- the platform as it is observed on CPython 3 / glibc: socket functions raise OSError
+    (ValueError on an embedded NUL), `netaddr.fbsocket.inet_pton` raises ValueError
+    (fbsocket.py:113-142, 152-200: one `invalid_addr = ValueError(...)`), `int()` raises
+    ValueError.  The driver op `raw_call` ties the success values and the fact that every failure
+    is a class below `Exception` (all that `Sane` asks); WHICH class is an observation recorded
+    here, not a clause of the property, and no theorem depends on it. -/
 def std : RawPlatform where
   aton s := match Text4.aton s with
     | some v => .ok v
